@@ -127,14 +127,20 @@ class RunLoop(FnSpec):
         self.cls = cls
         self.qualname = cls + ".run"
         self.world = None
-        self.loops = {1: LoopSpec("self.should_keep_running()", self.inv)}
+        self.loops = {1: LoopSpec("self.should_keep_running()", self.inv, modifies=[("call", self.new_round)])}
         self.expected_covers = ["loop1.body", "loop1.end", "exit"]
 
+    def new_round(self, ex):
+        self.handler_raised = False
+
     def inv(self, ex, _):
-        return [("true", z3.BoolVal(True))]
+        return [("exactly-once: an exception out of dispatch_events (a handler raised - the handlers after it were not served) is not swallowed by the dispatcher loop, which would go on as if the event had been delivered to everyone",
+                 z3.BoolVal(not getattr(self, "handler_raised", False)))]
 
     def globals(self):
         def is_set(ex, recv, a, k, n):
+            if getattr(self, "handler_raised", False):
+                ex.oblige("exactly-once[an exception out of dispatch_events (a handler raised: the handlers after it were not served) is not swallowed by the dispatcher loop, which would go on as if the event had been delivered to everyone]", False)
             self.last_flag = ex.fresh_term(z3.BoolSort(), "stopped")
             self.checked_since_call = True
             return VBool(self.last_flag)
@@ -146,8 +152,14 @@ class RunLoop(FnSpec):
                           z3.And(z3.BoolVal(bool(self.checked_since_call)), z3.Not(self.last_flag)) if self.last_flag is not None else False)
                 self.checked_since_call = False
                 self.calls.append(name)
-                if name == "dispatch_events" and ex.choose(2, "queue.Empty") == 1:
-                    raise Raise(VExc("queue.Empty"), "dispatch_events()")
+                if name == "dispatch_events":
+                    c = ex.choose(3, "dispatch_events: returns / queue.Empty / a handler's callback raised")
+                    if c == 1:
+                        raise Raise(VExc("queue.Empty"), "dispatch_events()")
+                    if c == 2:
+                        # user code raised half-way through the handler loop: the handlers after it have NOT been served
+                        self.handler_raised = True
+                        raise Raise(VExc("RuntimeError"), "dispatch_events(): a handler raised")
                 return None
             return h
         return {"event.is_set": is_set, "EventEmitter.queue_events": blocking("queue_events"), "EventDispatcher.dispatch_events": blocking("dispatch_events")}
@@ -157,6 +169,7 @@ class RunLoop(FnSpec):
         self.calls = []
         self.last_flag = None
         self.checked_since_call = False
+        self.handler_raised = False
         ex.heap[(self.me.id, "_stopped_event")] = VOpaque("event")
         ex.heap[(self.me.id, "_timeout")] = VOpaque("timeout")
         ex.heap[(self.me.id, "_event_queue")] = VOpaque("event_queue")
@@ -167,6 +180,8 @@ class RunLoop(FnSpec):
         ex.oblige("post[one blocking call per iteration, nothing else]", len(self.calls) <= 1)
 
     def post_raise(self, ex, exc, site):
+        if getattr(self, "handler_raised", False) and exc.cls == "RuntimeError":
+            return      # user code raised in the observer thread: the thread ends with it (outside the library; not swallowed)
         ex.oblige(f"no-uncaught[{exc.cls}@{site}] (the thread would die)", False, kind="exception")
 
 
